@@ -73,6 +73,9 @@ func buildSched(b *built, race bool) error {
 	if err != nil {
 		return fmt.Errorf("rewriter: %v", err)
 	}
+	if err := addDetMaps(overlay, filepath.Dir(overlay)); err != nil {
+		return fmt.Errorf("runtime overlay: %v", err)
+	}
 	out := filepath.Join(b.dir, "schedw")
 	args := []string{"build", "-tags", "verif", "-overlay", overlay}
 	if race {
